@@ -3,7 +3,7 @@
 use std::collections::BTreeMap;
 
 use crate::exec::glob_text;
-use crate::model::{Model, Visit};
+use crate::model::{Fault, Model, Visit};
 use crate::oracle::*;
 use crate::rng::Rng;
 use crate::scenario::*;
@@ -176,7 +176,20 @@ pub fn underlying_source(
     for _ in 0..6 {
         let (e, r) = g.walk_glob(model, base, 1, true, &mut stats.rejections);
         if !prefix_touches_link(model, base, &e, r) {
-            return Source::Glob { expr: e, rooted: r };
+            let probe = Walker {
+                source: Source::Glob { expr: e.clone(), rooted: r },
+                base: base.to_string(),
+                spelling: Spelling::Absolute,
+                link: Link::ReadTarget,
+                depth: Depth::Unbounded,
+                order: Order::Lex,
+                victims: vec![],
+                layers: vec![],
+                taps: false,
+            };
+            if !cycle_above_prefix(model, &probe) {
+                return Source::Glob { expr: e, rooted: r };
+            }
         }
         stats.restricted += 1;
     }
@@ -185,3 +198,37 @@ pub fn underlying_source(
         rooted: false,
     }
 }
+
+/// Sampling restriction: a link that re-enters an ancestor *above* the directory the walk starts
+/// in (the invariant prefix of the glob) is not an ancestor on the walked path; whether it counts
+/// as "one of its ancestors" is ambiguous, so such draws are not sampled.
+/// (`Glob::partition` decides what to sample, never what to judge.)
+pub fn cycle_above_prefix(model: &Model, w: &Walker) -> bool {
+    let Source::Glob { expr, rooted } = &w.source
+    else {
+        return false;
+    };
+    let text = glob_text(expr, *rooted, DUMMY_ROOT);
+    let Ok(glob) = wax::Glob::new(&text)
+    else {
+        return false;
+    };
+    let (prefix, _) = glob.partition();
+    let prefix = prefix.to_string_lossy().into_owned();
+    let start: Option<String> = if *rooted {
+        prefix.strip_prefix(DUMMY_ROOT).map(|r| r.trim_matches('/').to_string())
+    }
+    else {
+        crate::exec::to_world(&format!("{}/{}/{}", R, w.base, prefix), "")
+    };
+    let Some(start) = start
+    else {
+        return true;
+    };
+    let space = Space::of(w, DUMMY_ROOT);
+    model
+        .traverse(&space.start, Link::ReadTarget, None)
+        .iter()
+        .any(|v| matches!(&v.fault, Some(Fault::Cycle { ancestor }) if !is_under(ancestor, &start) ) && is_under(&v.path, &start))
+}
+
